@@ -297,9 +297,24 @@ def check_top_text(text, where):
 def norm_ws(s):
     return re.sub(r'\s+', ' ', s).strip()
 
-def weave_text(text, entries, relpath, specpath):
+def weave_text(text, entries, relpath, specpath, skipped=None):
+    """skipped: None = strict (any anchor failure raises); a list = lenient: an entry whose anchor does not
+    fire is left out, together with every other entry of the same function, and recorded in the list as
+    (relpath, function, reason).  Groups that enforce/replace/apply loop contracts of such a function are
+    reported undecided by the runner; groups that run the function as plain code are unaffected."""
     masked = mask_c(text)
     funcs = find_functions(text, masked)
+    if skipped is not None:
+        bad = {}
+        for e in entries:
+            try:
+                weave_text(text, [e], relpath, specpath, None)
+            except WeaveError as ex:
+                bad.setdefault(e['fn'], str(ex))
+        if bad:
+            for fn, why in bad.items():
+                skipped.append((relpath, fn, why))
+            entries = [e for e in entries if e['fn'] not in bad]
     inserts = []   # (pos, order, string)
     order = 0
     for e in entries:
@@ -396,7 +411,8 @@ def weave_tree(repo, contracts_dir, dest):
                 raise WeaveError("spec %s: source %s missing" % (specpath, src))
             text = open(src, encoding='latin-1').read()
             entries = parse_spec(specpath)
-            woven, funcs = weave_text(text, entries, rel, os.path.relpath(specpath, os.path.dirname(contracts_dir)))
+            woven, funcs = weave_text(text, entries, rel, os.path.relpath(specpath, os.path.dirname(contracts_dir)),
+                                      report.setdefault('skipped', []))
             with open(os.path.join(dest, rel), 'w', encoding='latin-1') as f:
                 f.write(woven)
             report['files'][rel] = {'anchors': len(entries), 'functions': sorted(funcs)}
